@@ -103,6 +103,107 @@ def normalise_via(case: dict) -> None:
 H2_PACES = ["immediate", "immediate", "late_ack", "paused", "conn_first", "stream_first", "conn_only"]
 
 
+# --------------------------------------------------------------------------------------------------------------
+# responses that take longer than keep_alive_timeout ("every pace"): an application that pauses between its messages, or
+# a client that takes its time over a body larger than its window, against a server configured with a small
+# keep_alive_timeout - on every carrier and opening of the connection.  The response is due whole all the same: the
+# keep-alive time-out is about idle connections (C07), a connection with a response in progress is not idle.
+# --------------------------------------------------------------------------------------------------------------
+SLOW_TS = (0.3, 0.7, 1.1)            # keep_alive_timeout values (virtual seconds); off the 0.25 s / 0.5 s grid of the client's actions
+SLOW_PAUSES = (0.41, 0.83, 1.57, 2.9)
+# carrier x opening: HTTP/1.0, HTTP/1.1; HTTP/2 by ALPN / prior knowledge with the first flight (preface, SETTINGS, HEADERS) in one
+# segment, cut behind the client's SETTINGS, cut inside the preface line (18) / at the end of the preface (24) / inside the HEADERS
+# frame (-5 = five bytes before the end); h2c upgrade with the real, an empty, no HTTP2-Settings header
+SLOW_ENTRIES = [("1.0", None, None), ("1.1", None, None),
+                ("2", "alpn", "one"), ("2", "alpn", "settings"),
+                ("2", "prior", "one"), ("2", "prior", "settings"), ("2", "prior", 18), ("2", "prior", 24), ("2", "prior", -5),
+                ("2", "h2c", None), ("2", "h2c_empty", None), ("2", "h2c_absent", None)]
+
+
+def first_cut(blob: bytes, first: Any) -> Optional[int]:
+    """where the first flight of an HTTP/2 connection is cut: None = one segment"""
+    k = None
+    if first == "settings":
+        k = 24 if blob.startswith(b"PRI * HTTP/2.0\r\n\r\nSM\r\n\r\n") else 0
+        while k + 9 <= len(blob) and blob[k + 3] == 4:          # the client's SETTINGS frames
+            k += 9 + int.from_bytes(blob[k:k + 3], "big")
+    elif isinstance(first, int) and not isinstance(first, bool):
+        k = first if first >= 0 else len(blob) + first
+    return k if k is not None and 0 < k < len(blob) else None
+
+
+def normalise_slow(case: dict) -> None:
+    if case.get("first") == "one":
+        # the client's larger MAX_FRAME_SIZE must be acknowledged before a larger frame may reach it (see `run_case`): with the
+        # request in the same segment there is no such moment
+        case["max_frame"] = None
+
+
+def slow_case(entry: Tuple[str, Optional[str], Any], worker: str, shape: str, T: float, k: int = 0) -> dict:
+    proto, via, first = entry
+    case = {"family": "response", "slow": shape, "proto": proto, "method": "GET", "status": 200, "headers": [["x-a", "1"]], "header_variant": "custom1",
+            "te": False, "worker": worker, "pace": "immediate", "T": T}
+    if shape == "app_pause":
+        # status and a first chunk at once, the second chunk several time-outs later, then the end
+        case.update({"chunking": "tiny", "chunks": ["first chunk;", "second chunk, after a pause"], "pauses": [[2, round(3 * T + 0.17, 2)]]})
+    elif shape == "app_pauses":
+        # pauses everywhere: before the status, between the chunks (each shorter than the time-out, the response longer), before the end
+        case.update({"chunking": "with_empty", "chunks": ["ab", "", "c" * 300, "d"], "status": 404,
+                     "pauses": [[j, round(0.6 * T + 0.03 * j, 2)] for j in range(5)]})
+    elif shape == "late_status":
+        # the application thinks for a long time before it says anything
+        case.update({"chunking": "one", "chunks": ["x"], "method": "HEAD" if k % 2 else "GET", "pauses": [[0, round(2 * T + 0.23, 2)]]})
+    else:
+        # "slow_client": nothing slow in the application; a body larger than the client's window, acknowledged late (HTTP/2) /
+        # read after a pause (HTTP/1)
+        case.update({"chunking": "big_window", "chunks": [b2s(b"w" * 70000), b2s(b"y" * 70000), "zzz"], "pace": "late_ack" if proto == "2" else "paused"})
+    if proto == "2":
+        case.update({"via": via, "initial_window": None, "max_frame": None, "streams": 1})
+        if first is not None:
+            case.update({"first": first, "gap": 0.13 if k % 3 == 2 else 0})
+        if shape == "app_pauses" and via in ("alpn", "prior"):
+            case.update({"te": True, "trailers": [[["x-trailer", "t1"]]], "pauses": case["pauses"] + [[5, round(0.6 * T, 2)]]})
+        normalise_via(case)
+    normalise_slow(case)
+    return case
+
+
+def slow_corpus() -> List[dict]:
+    """deterministic, first in every tier: every entry x both workers x {one long pause between two chunks, the slow client};
+    the other two shapes on alternating workers"""
+    out = []
+    k = 0
+    for entry in SLOW_ENTRIES:
+        for worker in ("asyncio", "trio"):
+            k += 1
+            T = SLOW_TS[k % len(SLOW_TS)]
+            out.append(slow_case(entry, worker, "app_pause", T, k))
+            if entry[2] in (None, "one", "settings"):
+                out.append(slow_case(entry, worker, "slow_client", SLOW_TS[0], k))
+        k += 1
+        out.append(slow_case(entry, "asyncio" if k % 2 else "trio", "app_pauses", SLOW_TS[k % len(SLOW_TS)], k))
+        out.append(slow_case(entry, "trio" if k % 2 else "asyncio", "late_status", SLOW_TS[(k + 1) % len(SLOW_TS)], k))
+    return out
+
+
+def gen_slow(ctx: Ctx) -> dict:
+    """a random response case (status, method, headers, chunking, pace, HTTP/2 client shape as in `gen_case`) served by an
+    application that pauses before some of its messages, under a small keep_alive_timeout, the first flight of an HTTP/2
+    connection in one segment or cut anywhere"""
+    rng = ctx.rng
+    case = gen_case(ctx)
+    case["T"] = rng.choice(SLOW_TS)
+    n = len(app_msgs(case))
+    at = sorted(rng.sample(range(n), min(n, rng.choice([1, 1, 2, 3]))))
+    case["pauses"] = [[j, rng.choice(SLOW_PAUSES)] for j in at]
+    case["slow"] = "random"
+    if case["proto"] == "2" and not case["via"].startswith("h2c"):
+        case["first"] = rng.choice(["one", "one", "settings", rng.randint(1, 23), 24, rng.randint(25, 60), -rng.randint(1, 8)])
+        case["gap"] = rng.choice([0, 0, 0.13])
+    normalise_slow(case)
+    return case
+
+
 def app_msgs(case: dict) -> List[dict]:
     chunks = [c.encode("latin1") for c in case["chunks"]]
     headers = [(n.encode("latin1"), v.encode("latin1")) for n, v in case["headers"]]
@@ -122,7 +223,16 @@ def app_msgs(case: dict) -> List[dict]:
 
 def run_case(case: dict) -> dict:
     msgs = app_msgs(case)
-    script = [["recv_body"]] + [["send", m] for m in msgs]
+    # a slow application: `pauses` = [[k, seconds], ...] - it sleeps (virtual time) before its k-th message; `T` = the
+    # keep_alive_timeout the server is configured with (None: the default)
+    pauses = {int(k): float(sec) for k, sec in (case.get("pauses") or [])}
+    span = sum(pauses.values())
+    script = [["recv_body"]]
+    for k, m in enumerate(msgs):
+        if pauses.get(k):
+            script.append(["sleep", pauses[k]])
+        script.append(["send", m])
+    cfg = {} if case.get("T") is None else {"keep_alive_timeout": case["T"]}
     req_headers = [(b"host", b"x")] + ([(b"te", b"trailers")] if case["te"] else [])
     box: Dict[str, Any] = {}
     if case["proto"] == "2":
@@ -156,23 +266,50 @@ def run_case(case: dict) -> dict:
                 c._st(1)
                 if head.startswith(b"HTTP/1.1 101"):
                     c.receive(rest)
-            if case.get("initial_window") is not None or case.get("max_frame") is not None:
+            first = None if h2c else case.get("first")
+            if first is None and (case.get("initial_window") is not None or case.get("max_frame") is not None):
                 # the SETTINGS exchange first: h2 (client side) raises its inbound frame-size limit only between two
                 # `receive_data` calls, so the server's acknowledgement must not share a read with a larger frame
                 await c.pump(io)
-            if pace == "paused":
-                io.pause_writes()
             sids = [c.request(C.h2_headers(case["method"], "/r", extra=req_headers[1:])) for _ in range(n_streams - (1 if h2c else 0))]
             if h2c:
                 sids = [1] + sids
+            blob = c.out() if first is not None else b""
+            k = first_cut(blob, first)
+            if pace == "paused" and k is None:
+                io.pause_writes()
+            if first is not None:
+                # the first flight of the connection (preface, SETTINGS, the HEADERS of every request) leaves the client in one
+                # segment, or cut in two (`first` = "one" | "settings": behind the client's SETTINGS frames | k: after k bytes)
+                box["first"] = [len(blob), k]
+                if k is None:
+                    await io.send(blob)
+                else:
+                    await io.send(blob[:k])
+                    c.receive(io.take())
+                    if case.get("gap"):
+                        await io.sleep(case["gap"])
+                    if pace == "paused":
+                        # (it stops reading with the segment that completes its request: a server kept from writing by a client that
+                        # has not asked for anything yet is not this property's matter)
+                        io.pause_writes()
+                    await io.send(blob[k:])
             await c.pump(io)
+
+            def done() -> bool:
+                return bool(c.error) or all(c.streams[x]["ended"] or c.streams[x]["reset"] is not None for x in sids)
             if pace == "paused":
                 await io.sleep(1.0)
                 await io.resume_writes()
                 await c.pump(io)
+            if span and pace in ("immediate", "paused"):
+                # the application takes its time: the client keeps reading (and acknowledging) until the response has ended
+                for _ in range(int((span + 2.0) / 0.25) + 1):
+                    if done() or io.closed_at is not None:
+                        break
+                    await io.sleep(0.25)
+                    await c.pump(io)
             if pace not in ("immediate", "paused"):
-                def done() -> bool:
-                    return bool(c.error) or all(c.streams[x]["ended"] or c.streams[x]["reset"] is not None for x in sids)
 
                 async def credit(level: str, owed: Dict[int, int]) -> None:
                     """explicit WINDOW_UPDATE frames for what was received and not yet acknowledged"""
@@ -187,6 +324,8 @@ def run_case(case: dict) -> dict:
 
                 for _ in range(200):
                     await io.sleep(0.5)
+                    if span:
+                        await c.pump(io)        # (what a slow application has sent in the meantime)
                     if done():
                         break
                     if not any(c.unacked.values()):
@@ -212,8 +351,8 @@ def run_case(case: dict) -> dict:
             await c.pump(io)
             await io.sleep(2.0)
             await c.pump(io)
-            return {"summary": c.summary(), "sids": sids, "upgrade_head": b2s(box.get("upgrade_head", b""))}
-        res = R.RUNNERS[case["worker"]]({}, "h2" if via == "alpn" else None, client, [script], tail=20)
+            return {"summary": c.summary(), "sids": sids, "upgrade_head": b2s(box.get("upgrade_head", b"")), "first": box.get("first")}
+        res = R.RUNNERS[case["worker"]](cfg, "h2" if via == "alpn" else None, client, [script], tail=20)
         cr = res.get("client_result") or {"summary": {"streams": {}, "error": "client did not finish"}, "sids": []}
         c_error = cr["summary"]["error"]
         views = []
@@ -235,8 +374,8 @@ def run_case(case: dict) -> dict:
             if case["pace"] == "paused":
                 await io.sleep(1.0)
                 await io.resume_writes()
-            await io.sleep(1.0)
-        res = R.RUNNERS[case["worker"]]({}, None, client, [script], tail=20)
+            await io.sleep(1.0 + span)
+        res = R.RUNNERS[case["worker"]](cfg, None, client, [script], tail=20)
         p = C.parse_h1(res["out"], [case["method"]])
         finals = [r for r in p["responses"] if not r.get("informational")]
         r0 = finals[0] if finals else {}
@@ -244,6 +383,7 @@ def run_case(case: dict) -> dict:
                 "n_responses": len(finals), "trailers": r0.get("trailers"), "error": p["error"], "trailing": p["trailing"]}
         views = [view]
     return {"view": view, "views": views, "res": {k: res[k] for k in ("error", "loop_errors", "exceptions", "access", "closed_at", "handler_done", "client_error")},
+            "first": (res.get("client_result") or {}).get("first") if case["proto"] == "2" else None,
             "app_send": res["apps"][0]["send"] if res["apps"] else None}
 
 
@@ -283,11 +423,21 @@ def check(ctx: Ctx, cases: List[dict]) -> None:
             ctx.count("h2.negotiated_via", case.get("via", "alpn"))
         if case["chunks"] or suppress:
             ctx.distinct([case["proto"], case["method"], sclass, case["header_variant"], case["chunking"], case["pace"], case["worker"],
-                          case.get("initial_window"), case.get("streams", 1), bool(case.get("trailers")), case.get("via")])
+                          case.get("initial_window"), case.get("streams", 1), bool(case.get("trailers")), case.get("via")]
+                         + ([case.get("slow"), case["T"], str(case.get("first"))] if case.get("T") is not None else []))
         ctx.sample({k: (v2 if k != "chunks" else [len(c) for c in v2]) for k, v2 in case.items()}, cap=3)
         sig = {"family": "response", "proto": case["proto"]}
         if case.get("via", "alpn") != "alpn":
             sig["via"] = case["via"]
+        if case.get("T") is not None:
+            span = sum(sec for _, sec in case.get("pauses") or [])
+            ctx.count("slow.shape", case.get("slow"))
+            ctx.count("slow.entry", f"{case['proto']} {case.get('via') or ''} first={case.get('first')}".replace("  ", " "))
+            ctx.count("slow.timing", "application pauses longer than keep_alive_timeout" if span > case["T"] else
+                      ("application pauses shorter than keep_alive_timeout" if span else "no application pause (slow client)"))
+            ctx.count("slow.first_flight", "n/a" if o.get("first") is None else ("one segment" if o["first"][1] is None else "cut"))
+            # (what the server did to the connection, for the replay's reader; the signature says that the case is a slow one)
+            sig["slow"] = True
         if case.get("via", "alpn").startswith("h2c") and not o["view"].get("upgrade_head", "").startswith("HTTP/1.1 101"):
             # "in the negotiated protocol": the upgrade must have been agreed to before anything is said in HTTP/2
             ctx.violation("h2c_upgrade_not_answered", case, {"head": o["view"].get("upgrade_head", "")[:200]}, sig)
@@ -309,7 +459,9 @@ def check(ctx: Ctx, cases: List[dict]) -> None:
             if v["status"] != case["status"]:
                 ctx.violation("status", case, brief, sig)
             if not v["complete"] or v.get("n_responses", 1) != 1:
-                ctx.violation("end_exactly_once", case, {"got_len": len(v["body"]), "want_len": len(want_body), "view": brief}, sig)
+                ctx.violation("end_exactly_once", case, {"got_len": len(v["body"]), "want_len": len(want_body), "view": brief,
+                                                         **({"keep_alive_timeout": case["T"], "server_closed_at_ms": o["res"]["closed_at"],
+                                                             "application_sends": o["app_send"], "first_flight": o.get("first")} if case.get("T") is not None else {})}, sig)
             if v["body"] != want_body:
                 ctx.violation("body", case, {"got_len": len(v["body"]), "want_len": len(want_body), "view": brief},
                               {**sig, "suppress": suppress})
@@ -620,6 +772,8 @@ def run(ctx: Ctx) -> None:
     check_request_max(ctx)
     n = ctx.budget(500, 8000)
     cases = carrier_corpus() + flow_corpus() + [gen_case(ctx) for _ in range(n)]
+    # responses that take longer than a small keep_alive_timeout, every carrier and opening, both workers
+    cases += slow_corpus() + [gen_slow(ctx) for _ in range(ctx.budget(40, 1500))]
     # boundary corpus: every status x method on every protocol once (small bodies)
     for proto in ("1.0", "1.1", "2"):
         for status in STATUSES:
@@ -636,6 +790,7 @@ def replay(ctx: Ctx, case: dict) -> None:
         check_request_max(ctx)
         return
     normalise_via(case)
+    normalise_slow(case)
     if case.get("family") == "wire":
         check_wire(ctx, [case["scenario"]])
     else:
